@@ -117,6 +117,14 @@ def getFuncName (c : Cfg) (t : Table τ) (typs : List τ) : Name × Table τ :=
   | some n => (n, t)
   | none => let n := newName R c t typs; (n, t.insert n typs)
 
+/- Since 67eda32 the same Go map also holds keys `name(types)` ↦ new name, consulted at the top of
+`SetFuncName` ("a call of this name with these types was renamed in an earlier pass"). Within one table
+that lookup changes no answer: the key is written together with `autonamed[new] = name` when `new` is
+bound to these types, so a later `SetFuncName(name, types)` returns `new` either way (through the
+substitution, or through `nameOf = new` and the `autonamed[new] == name` test). It matters only across the
+passes over one package (the table of renames outlives the name tables), which is outside `registerAll`
+(one pass) and is covered by the T2 stream `pending`; T3 confirms the single-table agreement. -/
+
 /-- `tm.autonamed[f]` (the zero value "" when `f` is not a key) -/
 def Table.autonamedFrom (t : Table τ) (f : Name) : Name := (t.autonamed.lookup f).getD []
 
